@@ -318,6 +318,10 @@ func factsTakeoverConnect(repo string, o *out) {
 	}
 	var seq []int
 	made := false
+	// the branch taken when the CONNACK of an accepted CONNECT cannot be written: `if err =
+	// writeMessage(c, resp); err != nil { return nil, err }` - nothing but the return (Model/Broker.lean
+	// `firstFail`: after getSession nothing happens to the stores; the deferred c.Close() closes the socket)
+	failReturnsOnly, failSeen := false, false
 	var walk func(list []ast.Stmt, guard string)
 	calls := func(n ast.Node, guard string) {
 		ast.Inspect(n, func(m ast.Node) bool {
@@ -383,6 +387,15 @@ func factsTakeoverConnect(repo string, o *out) {
 			case *ast.IfStmt:
 				if st.Init != nil {
 					calls(st.Init, guard)
+					if as, ok := st.Init.(*ast.AssignStmt); ok && len(as.Rhs) == 1 && exprString(as.Rhs[0]) == "writeMessage(c,resp)" {
+						failSeen = true
+						if len(st.Body.List) == 1 && st.Else == nil && exprString(st.Cond) == "(err!=nil)" {
+							if r, ok := st.Body.List[0].(*ast.ReturnStmt); ok && len(r.Results) == 2 &&
+								exprString(r.Results[0]) == "nil" && exprString(r.Results[1]) == "err" {
+								failReturnsOnly = true
+							}
+						}
+					}
 				}
 				calls(st.Cond, guard)
 				walk(st.Body.List, exprString(st.Cond))
@@ -405,6 +418,10 @@ func factsTakeoverConnect(repo string, o *out) {
 	walk(fn.Body.List, "")
 	o.def("takeoverConnectSeq", "List Nat", natList(seq))
 	o.def("takeoverStoppedMade", "Bool", boolLit(made))
+	if !failSeen {
+		die("handleConnection: `if err = writeMessage(c, resp); err != nil {…}` not found")
+	}
+	o.def("takeoverWriteFailReturnsOnly", "Bool", boolLit(failReturnsOnly))
 }
 
 // ---- Session.Resumable and Server.getSession --------------------------------------------------------
